@@ -28,10 +28,17 @@ SIZES = [0, 1, 2, 15, 16, 17, 31, 32, 33, 100, 1000, 4095, 4096, 4097, 20000]
 
 
 def gen_members(rng, n=None):
+    """a session: (name, bytes) entries; bytes None = a directory entry (a session may consist of directories only)"""
     n = rng.choice([0, 1, 1, 2, 3, 4, 6]) if n is None else n
     names = rng.sample(NAMES, min(n, len(NAMES)))
-    return [(nm, arch.pattern_bytes(rng, rng.choice(SIZES), rng.choice(["random", "text", "period", "code", "zeros"])))
-            for nm in names]
+    shape = rng.choice(["data", "data", "data", "mixed", "dirs"])
+    out = []
+    for nm in names:
+        # write() strips drive-like prefixes by design (C16): directory entries, which go through write(), avoid them
+        isdir = (shape == "dirs" or (shape == "mixed" and rng.random() < 0.4)) and not nm.startswith("c:")
+        out.append((nm, None if isdir else
+                    arch.pattern_bytes(rng, rng.choice(SIZES), rng.choice(["random", "text", "period", "code", "zeros"]))))
+    return out
 
 
 def write_case(rng, case):
@@ -64,8 +71,16 @@ def write_case(rng, case):
                     expected += [("t", "dir", b""), ("t/d", "dir", b""), ("t/d/f.bin", "file", b"tree-file" * 10),
                                  ("t/emptydir", "dir", b""), ("t/lnk", "file", b"d/f.bin"), ("t/zero", "file", b"")]
                 for nm, d in ms:
-                    z.writestr(d, nm)
-                    expected.append((nm, "file", d))
+                    if d is None:
+                        if tmp is None:
+                            tmp = tempfile.mkdtemp(prefix="c07_")
+                        dp = os.path.join(tmp, "dir%d" % len(expected))
+                        os.mkdir(dp)
+                        z.write(dp, nm)
+                        expected.append((nm, "dir", b""))
+                    else:
+                        z.writestr(d, nm)
+                        expected.append((nm, "file", d))
             first = False
     finally:
         if tmp:
@@ -122,7 +137,7 @@ def run(ctx):
             data, expected, password = write_case(rng, case)
         except Exception as e:  # noqa
             rep.violation("writing raises %s: %s (chain %s, header %s, %d sessions)" % (type(e).__name__, e, chain, header_mode, nsess),
-                          {"kind": "write-raises", "case": {"chain": chain, "header": header_mode, "sessions": [[(a, b.hex()) for a, b in ms] for ms in case["sessions"]], "tree": case["tree"]}},
+                          {"kind": "write-raises", "case": {"chain": chain, "header": header_mode, "sessions": [[(a, None if b is None else b.hex()) for a, b in ms] for ms in case["sessions"]], "tree": case["tree"]}},
                           match_keys={"kind": "write-raises", "exc": type(e).__name__, "sessions_gt1": nsess > 1})
             continue
         rep.count(key, nontrivial=any(d for _, _, d in expected))
